@@ -79,6 +79,8 @@ fn key_main<C: key::KeyColl>(a: &Args, tr: &mut out::Trace) {
                 steps: a.num("steps", 2000) as u64,
                 seg_len: a.num("seglen", 60) as u64,
                 inject: a.num("inject", 0) != 0,
+                snap_every: a.num("snapevery", 1) as u64,
+                clears: a.num("clears", 1) != 0,
             };
             key::run_random::<C>(tr, &cfg);
         }
@@ -114,6 +116,8 @@ fn ord_main<C: ord::OrdColl>(a: &Args, tr: &mut out::Trace) {
                 steps: a.num("steps", 2000) as u64,
                 seg_len: a.num("seglen", 80) as u64,
                 inject: a.num("inject", 0) != 0,
+                snap_every: a.num("snapevery", 1) as u64,
+                clears: a.num("clears", 1) != 0,
             };
             ord::run_random::<C>(tr, &cfg);
         }
